@@ -4,6 +4,7 @@ import (
 	"encoding/json"
 	"fmt"
 	"os"
+	"strings"
 )
 
 // replayers re-execute one case with no explorer. They return a description of
@@ -59,6 +60,32 @@ func argOps(c *Case) [][]string {
 }
 
 func init() {
+	replayers["obj-retained"] = func(c *Case) string {
+		first, then := argStr(c, "first"), argStr(c, "then")
+		run := func(parse func(string) (vecObj, error)) string {
+			o1, e1 := parse(first)
+			o2, e2 := parse(then)
+			if e1 != nil || e2 != nil {
+				return "replay vectors rejected"
+			}
+			v1 := o1.Vector()
+			keep := strings.Clone(v1)
+			for i := 0; i < 4; i++ {
+				_ = o2.Vector()
+				parse(then)
+			}
+			if v1 != keep {
+				return fmt.Sprintf("string returned by Vector() changed from %q to %q", keep, strings.Clone(v1))
+			}
+			return ""
+		}
+		for _, p := range parsers {
+			if p.ver.Name == argStr(c, "version") {
+				return run(p.parse)
+			}
+		}
+		return "unknown version"
+	}
 	replayers["obj-ops"] = func(c *Case) string {
 		preds := Pred(0)
 		if f, ok := c.Args["preds"].(float64); ok {
